@@ -77,5 +77,25 @@ fn vf_config_check_untouched_iff_ok() {
             if verdict().is_ok() { bad += 1; println!("VF-FAIL {} (generated file of {} bytes) :: the configuration is still accepted (C17)", name, gen_bytes.len()); }
         }
     }
+    // every single-byte replacement in a small generated file must be rejected (or fail to load)
+    {
+        let src = work.join("srcS.json");
+        let src_bytes = b"{\"targets\":[{\"path\":\"lib\"}]}".to_vec();
+        std::fs::write(&src, &src_bytes).unwrap();
+        let gen = work.join("genS.json");
+        let gen_bytes = cfg_json(0, false, Some((src.to_str().unwrap(), &sha_hex(&src_bytes))));
+        let lock = work.join("genS.lock");
+        std::fs::write(&lock, format!("{{\"checksum\":\"{}\"}}", sha_hex(&gen_bytes))).unwrap();
+        for off in 0..gen_bytes.len() {
+            for repl in [b'E', b' '] {
+                if gen_bytes[off] == repl { continue; }
+                checked += 1;
+                let mut g = gen_bytes.clone(); g[off] = repl;
+                std::fs::write(&gen, &g).unwrap();
+                let accepted = match Config::new(&gen) { Ok(c) => c.check(&gen, work).is_ok(), Err(_) => false };
+                if accepted { bad += 1; if bad <= 3 { println!("VF-FAIL byte {} of the generated file replaced by {:?} (around {:?}) :: the configuration is still accepted (C17)", off, repl as char, String::from_utf8_lossy(&gen_bytes[off.saturating_sub(8)..(off + 8).min(gen_bytes.len())])); } }
+            }
+        }
+    }
     println!("VF-SUMMARY test=config_check_untouched_iff_ok checked={} nontrivial={} bad={}", checked, checked - 2, bad);
 }
